@@ -148,6 +148,22 @@ func Run(rc *core.RunCtx) {
 		return r
 	})
 
+	// one run in twelve: an operation interceptor answers the operation itself, without calling
+	// next (an auth gate): the transport gets a one-shot error response, and no executor context
+	denied := !marshalPanic && t.Bool(1, 12, "denied")
+	if denied {
+		subscription, nEmit = false, 0
+		srv.AroundOperations(func(ctx context.Context, next graphql.OperationHandler) graphql.ResponseHandler {
+			resp := graphql.ErrorResponse(ctx, "X:unauthorized")
+			b, _ := json.Marshal(resp)
+			rmu.Lock()
+			recorded = append(recorded, string(b))
+			rmu.Unlock()
+			return graphql.OneShot(resp)
+		})
+		w.Count("denied_by_operation_interceptor")
+	}
+
 	// lock grants: which goroutine wins a contended transport mutex is a tape decision
 	core.SetCurrent(w)
 	hookOnce.Do(func() {
